@@ -10,6 +10,10 @@
 // operation. Every operation and the implementation's canonical answer are written as one protocol line
 // for the Lean model (CV.Res) to reproduce.
 //
+// Part 4 (svcseq.go): the resource service layer driven sequentially over an interposing backend that commits
+// scheduled foreign operations in front of every backend mutation of a service call; compared line by line with
+// CV.ResSvc.
+//
 // Part 2 (conc.go, "concurrent" cases): 2–6 goroutines hammer the real store with the real publisher
 // goroutine running, built with -race; the recorded history is checked for linearizability by the Lean
 // model (CV.ResLin) and every watcher's stream is checked against the linearization.
@@ -32,6 +36,7 @@ import (
 	"time"
 
 	"github.com/hashicorp/go-hclog"
+	"google.golang.org/grpc"
 	"google.golang.org/protobuf/proto"
 
 	"github.com/hashicorp/consul/agent/consul/stream"
@@ -172,6 +177,7 @@ type world struct {
 	mode  string // "inmem" | "raft"
 	be    *inmem.Backend
 	rb    *raft.Backend
+	lh    *leaderHandle
 	store *inmem.Store
 	pub   *stream.EventPublisher
 
@@ -198,12 +204,41 @@ type world struct {
 
 var bg = context.Background()
 
+// leaderHandle is the raft.Handle of a single-node "cluster": Apply runs the FSM path (Backend.Apply) synchronously
+// at the Raft index the harness chose, so raft.Backend's own WriteCAS / DeleteCAS / Read / List (raftApply,
+// leaderRead, leaderList, ensureStrongConsistency) are on the path, not only Apply.
+type leaderHandle struct {
+	w            *world
+	inconsistent bool
+	applies      int
+}
+
+func (h *leaderHandle) Apply(msg []byte) (any, error) {
+	h.applies++
+	rsp := h.w.rb.Apply(msg, h.w.raftIdx)
+	if err, ok := rsp.(error); ok {
+		return nil, err
+	}
+	return rsp, nil
+}
+func (h *leaderHandle) IsLeader() bool { return true }
+func (h *leaderHandle) EnsureStrongConsistency(context.Context) error {
+	if h.inconsistent {
+		return errors.New("verif: leadership not verified")
+	}
+	return nil
+}
+func (h *leaderHandle) DialLeader() (*grpc.ClientConn, error) {
+	return nil, errors.New("verif: the leader does not dial itself")
+}
+
 func newWorld(run *hx.Run, rng *hx.RNG, mode string) *world {
 	w := &world{run: run, rng: rng, mode: mode, evSeqs: map[string][]int{}, present: map[string]*pbresource.Resource{},
 		cas: map[string]int{}, subjs: map[string]*subjRec{}, tags: map[string]bool{}, violated: map[string]bool{}}
 	var err error
 	if mode == "raft" {
-		w.rb, err = raft.NewBackend(nil, hclog.NewNullLogger())
+		w.lh = &leaderHandle{w: w}
+		w.rb, err = raft.NewBackend(w.lh, hclog.NewNullLogger())
 		if err != nil {
 			panic(err)
 		}
@@ -341,7 +376,16 @@ func (w *world) opWrite(res *pbresource.Resource) {
 	if w.mode == "raft" {
 		w.raftIdx += uint64(1 + w.rng.Intn(3))
 		op = fmt.Sprintf("rw %d %s", w.raftIdx, encRes(res))
-		stored, err = w.raftApplyWrite(clone(res), w.raftIdx)
+		if w.rng.Chance(50) { // through raft.Backend.WriteCAS -> raftApply -> Handle.Apply -> Backend.Apply
+			n0 := w.lh.applies
+			stored, err = w.rb.WriteCAS(bg, clone(res))
+			w.tag("raft:write-through-backend")
+			if w.lh.applies != n0+1 {
+				w.violate("raft:write-not-through-log", "raft.Backend.WriteCAS did not go through exactly one Raft apply")
+			}
+		} else {
+			stored, err = w.raftApplyWrite(clone(res), w.raftIdx)
+		}
 		if isRetired(res.Id.Type) {
 			w.tag("raft:retired-type-skipped")
 			out := "ok " + encRes(stored)
@@ -415,7 +459,16 @@ func (w *world) opDelete(id *pbresource.ID, vsn string) {
 	if w.mode == "raft" {
 		w.raftIdx += uint64(1 + w.rng.Intn(3))
 		op = fmt.Sprintf("rd %s %s", encID(id), hx.EncS(vsn))
-		err = w.raftApplyDelete(clone(id), vsn, w.raftIdx)
+		if w.rng.Chance(50) {
+			n0 := w.lh.applies
+			err = w.rb.DeleteCAS(bg, clone(id), vsn)
+			w.tag("raft:delete-through-backend")
+			if w.lh.applies != n0+1 {
+				w.violate("raft:write-not-through-log", "raft.Backend.DeleteCAS did not go through exactly one Raft apply")
+			}
+		} else {
+			err = w.raftApplyDelete(clone(id), vsn, w.raftIdx)
+		}
 		if isRetired(id.Type) {
 			w.tag("raft:retired-type-skipped")
 			w.line(op, "ok")
@@ -474,8 +527,37 @@ func (w *world) opDelete(id *pbresource.ID, vsn string) {
 
 // ---- reads
 
+// raftConsistencyProbe: a strongly consistent read / list on a leader that cannot verify its leadership, and a
+// read with an unknown consistency value, must fail with ErrInconsistent instead of serving local data.
+func (w *world) raftConsistencyProbe(id *pbresource.ID, q query) {
+	w.lh.inconsistent = true
+	_, err := w.rb.Read(bg, storage.StrongConsistency, clone(id))
+	_, lerr := w.rb.List(bg, storage.StrongConsistency, q.typ(), q.ten(), q.pfx)
+	w.lh.inconsistent = false
+	if !errors.Is(err, storage.ErrInconsistent) || !errors.Is(lerr, storage.ErrInconsistent) {
+		w.violate("raft:strong-read-without-consistency-check", "a strongly consistent Read / List was served although leadership could not be verified")
+	}
+	if _, err := w.rb.Read(bg, storage.ReadConsistency(7), clone(id)); !errors.Is(err, storage.ErrInconsistent) {
+		w.violate("raft:unknown-consistency-served", "a Read with an unknown consistency value was served")
+	}
+	if _, err := w.rb.List(bg, storage.ReadConsistency(7), q.typ(), q.ten(), q.pfx); !errors.Is(err, storage.ErrInconsistent) {
+		w.violate("raft:unknown-consistency-served", "a List with an unknown consistency value was served")
+	}
+	w.tag("raft:consistency-probe")
+}
+
 func (w *world) opRead(id *pbresource.ID) {
-	r, err := w.store.Read(clone(id))
+	var r *pbresource.Resource
+	var err error
+	switch {
+	case w.mode == "raft" && w.rng.Chance(40):
+		r, err = w.rb.Read(bg, storage.StrongConsistency, clone(id)) // leaderRead
+		w.tag("raft:read-strong")
+	case w.mode == "raft":
+		r, err = w.rb.Read(bg, storage.EventualConsistency, clone(id))
+	default:
+		r, err = w.store.Read(clone(id))
+	}
 	var mm storage.GroupVersionMismatchError
 	var out string
 	cur := w.present[resKey(id)]
@@ -544,7 +626,20 @@ func sameRows(a, b []*pbresource.Resource) bool {
 }
 
 func (w *world) opList(q query) {
-	rs, err := w.store.List(q.typ(), q.ten(), q.pfx)
+	var rs []*pbresource.Resource
+	var err error
+	switch {
+	case w.mode == "raft" && w.rng.Chance(40):
+		rs, err = w.rb.List(bg, storage.StrongConsistency, q.typ(), q.ten(), q.pfx) // leaderList
+		w.tag("raft:list-strong")
+		if w.rng.Chance(30) {
+			w.raftConsistencyProbe(&pbresource.ID{Type: &pbresource.Type{Group: q.g, GroupVersion: "v1", Kind: q.k}, Tenancy: q.ten(), Name: "a"}, q)
+		}
+	case w.mode == "raft":
+		rs, err = w.rb.List(bg, storage.EventualConsistency, q.typ(), q.ten(), q.pfx)
+	default:
+		rs, err = w.store.List(q.typ(), q.ten(), q.pfx)
+	}
 	if err != nil {
 		w.line("l "+q.enc(), "err")
 		w.violate("list:unexpected-error", err.Error())
@@ -570,7 +665,13 @@ func (w *world) opList(q query) {
 }
 
 func (w *world) opListByOwner(id *pbresource.ID) {
-	rs, err := w.store.ListByOwner(clone(id))
+	var rs []*pbresource.Resource
+	var err error
+	if w.mode == "raft" {
+		rs, err = w.rb.ListByOwner(bg, clone(id))
+	} else {
+		rs, err = w.store.ListByOwner(clone(id))
+	}
 	if err != nil {
 		w.line("lo "+encID(id), "err")
 		w.violate("listowner:unexpected-error", err.Error())
@@ -620,7 +721,16 @@ func (w *world) opWatchOpen(q query) {
 		w.tag("watch:open-cached-snapshot")
 	}
 	sr.refs++
-	wt, err := w.store.WatchList(q.typ(), q.ten(), q.pfx)
+	var wt *inmem.Watch
+	var err error
+	if w.mode == "raft" {
+		var sw storage.Watch
+		if sw, err = w.rb.WatchList(bg, q.typ(), q.ten(), q.pfx); err == nil {
+			wt = sw.(*inmem.Watch)
+		}
+	} else {
+		wt, err = w.store.WatchList(q.typ(), q.ten(), q.pfx)
+	}
 	if err != nil {
 		w.line("wo "+q.enc(), "err")
 		w.violate("watch:open-error", err.Error())
@@ -876,14 +986,38 @@ func probeGuardLive() bool {
 // ---------------------------------------------------------------- snapshot / restore
 
 func (w *world) opSnapshot() {
-	sn, err := w.store.Snapshot()
-	if err != nil {
-		w.line("snap", "err")
-		return
-	}
 	var rs []*pbresource.Resource
-	for r := sn.Next(); r != nil; r = sn.Next() {
-		rs = append(rs, r)
+	if w.mode == "raft" { // raft.Backend.Snapshot: protobuf-encoded rows
+		sn, err := w.rb.Snapshot()
+		if err != nil {
+			w.line("snap", "err")
+			return
+		}
+		for {
+			b, err := sn.Next()
+			if err != nil {
+				w.line("snap", "err")
+				return
+			}
+			if b == nil {
+				break
+			}
+			r := &pbresource.Resource{}
+			if err := r.UnmarshalBinary(b); err != nil {
+				w.line("snap", "err")
+				return
+			}
+			rs = append(rs, r)
+		}
+	} else {
+		sn, err := w.store.Snapshot()
+		if err != nil {
+			w.line("snap", "err")
+			return
+		}
+		for r := sn.Next(); r != nil; r = sn.Next() {
+			rs = append(rs, r)
+		}
 	}
 	w.snaps = append(w.snaps, rs)
 	w.line("snap", encRows(rs))
@@ -1329,8 +1463,14 @@ func main() {
 	run.Line("cfg guard-live "+hx.EncBool(live), "ok")
 	run.Tag("probe:index-guard-live=" + hx.EncBool(live))
 	run.Extra["index_guard_live"] = live
+	if os.Getenv("C18_ONLY_SVCSEQ") != "" { // development aid: only the service-level sequences
+		svcSeqPart(run)
+		run.Finish()
+		return
+	}
 	witnessLag(run)
 	witnessRestore(run)
+	svcSeqPart(run)
 	nCases := run.Scale(400, 4000)
 	if os.Getenv("C18_ONLY_CONCURRENT") != "" { // development aid: skip the controlled cases
 		nCases = 0
